@@ -895,3 +895,170 @@ Proof.
   pose proof (globs_upd_bufs mc (tab_cells t2) _ _ _ _ _ Hb Hg) as Hg2. fold m2 in Hg2.
   rewrite (tr_bufs_load ext m2 t2 r0 o0 tp0 l0 td0 u m' d fuel Hm2 Ht2 Hg2); try assumption. reflexivity.
 Qed.
+
+(* ================================================================== the C table against the model table of BufsDefs.v
+   A model slot is None (lb == NULL) or Some buf; the C slot represents it when: None -- path and lb are NULL and the saved
+   view is zero (a slot zeroed by memset / never used); Some b -- path points to the C string b_path b, lb is a pointer,
+   row/off/top/left/td = b_view b, id = b_id b, mtime = b_mtime b.  The line buffer behind lb is NOT related here (the model's
+   payload L is abstract): what lbuf_modified does to it is TrLbuf's theorem. *)
+Section Rep.
+  Context {L : Type}.
+  Definition view_of (s : cslot) : view := mkview (cs_row s) (cs_off s) (cs_top s) (cs_left s) (cs_td s).
+  Definition slot_rep (m : mem) (cs : cslot) (x : slot L) : Prop :=
+    match x with
+    | None => cs_path cs = VInt 0 /\ cs_lb cs = VInt 0 /\ view_of cs = viewz
+    | Some b => path_is m (cs_path cs) (Some (b_path b)) /\ (exists bl ol, cs_lb cs = VPtr bl ol) /\
+                view_of cs = b_view b /\ cs_id cs = b_id b /\ cs_mtime cs = b_mtime b
+    end.
+  Definition tab_rep (m : mem) (t : list cslot) (l : list (slot L)) : Prop := Forall2 (slot_rep m) t l.
+  Definition spath (x : slot L) : option bytes := match x with Some b => Some (b_path b) | None => None end.
+
+  Lemma rep_paths m t l : tab_rep m t l -> paths_at m t (map spath l).
+  Proof.
+    unfold tab_rep, paths_at. induction 1 as [|cs x t l H Hr IH]; cbn [map]; constructor; [|exact IH].
+    destruct x as [b|]; cbn [slot_rep spath] in *; [tauto|]. destruct H as (-> & _). constructor.
+  Qed.
+  Lemma rep_lbs m t l : tab_rep m t l -> lbs_ok t.
+  Proof.
+    unfold tab_rep, lbs_ok. induction 1 as [|cs x t l H Hr IH]; constructor; [|exact IH].
+    destruct x as [b|]; cbn [slot_rep] in H; [destruct H as (_ & (bl & ol & ->) & _); right; eauto|destruct H as (_ & -> & _); left; reflexivity].
+  Qed.
+  Lemma first_idx_rel {A B} (R : A -> B -> Prop) (f : A -> bool) (g : B -> bool) a b :
+    Forall2 R a b -> (forall x y, R x y -> f x = g y) -> first_idx f a = first_idx g b.
+  Proof.
+    intros H Hfg. induction H as [|x y a b Hxy Hr IH]; [reflexivity|]. cbn [first_idx]. rewrite (Hfg x y Hxy), IH. reflexivity.
+  Qed.
+  Lemma first_idx_map {A B} (f : B -> bool) (g : A -> B) l : first_idx f (map g l) = first_idx (fun x => f (g x)) l.
+  Proof. induction l as [|x l IH]; [reflexivity|]. cbn [map first_idx]. rewrite IH. reflexivity. Qed.
+  Lemma Forall2_firstn {A B} (R : A -> B -> Prop) n : forall a b, Forall2 R a b -> Forall2 R (firstn n a) (firstn n b).
+  Proof. induction n as [|n IH]; intros a b H; [constructor|]. destruct H; cbn [firstn]; constructor; auto. Qed.
+  Lemma Forall2_skipn {A B} (R : A -> B -> Prop) n : forall a b, Forall2 R a b -> Forall2 R (skipn n a) (skipn n b).
+  Proof. induction n as [|n IH]; intros a b H; [exact H|]. destruct H; cbn [skipn]; [constructor|auto]. Qed.
+  Lemma Forall2_nth {A B} (R : A -> B -> Prop) a b i x : Forall2 R a b -> nth_error a i = Some x -> exists y, nth_error b i = Some y /\ R x y.
+  Proof.
+    intro H. revert i. induction H as [|x0 y0 a b Hxy Hr IH]; intros i Hi; [destruct i; discriminate|].
+    destruct i as [|i]; [injection Hi as <-; exists y0; split; [reflexivity|exact Hxy]|apply IH; exact Hi].
+  Qed.
+  Lemma Forall2_len {A B} (R : A -> B -> Prop) a b : Forall2 R a b -> length a = length b.
+  Proof. induction 1; cbn [length]; congruence. Qed.
+  Lemma Forall2_switch {A B} (R : A -> B -> Prop) a b i : Forall2 R a b -> Forall2 R (switch a i) (switch b i).
+  Proof.
+    intro H. unfold switch. destruct (nth_error a i) as [x|] eqn:E.
+    - destruct (Forall2_nth R a b i x H E) as [y [Ey Rxy]]. rewrite Ey. constructor; [exact Rxy|].
+      apply Forall2_app; [apply Forall2_firstn|apply Forall2_skipn]; exact H.
+    - replace (nth_error b i) with (@None B); [exact H|]. symmetry. apply nth_error_None. apply nth_error_None in E.
+      rewrite <- (Forall2_len R a b H). exact E.
+  Qed.
+
+  (* bufs_find: the C scan computes the model's bufs_find *)
+  Lemma rep_find m t (s : st L) p : tab_rep m t (bufs s) ->
+    first_idx (path_hit (canon p)) (map spath (bufs s)) = bufs_find s p.
+  Proof.
+    intros _. unfold bufs_find. rewrite first_idx_map.
+    apply (first_idx_rel eq); [clear; induction (bufs s); constructor; auto|]. intros x y <-. destruct x; reflexivity.
+  Qed.
+  (* bufs_findroom *)
+  Lemma rep_findroom m t (s : st L) : tab_rep m t (bufs s) -> room_of t = bufs_findroom s.
+  Proof.
+    intro H. unfold room_of, bufs_findroom. change (NB - 1)%nat with 15%nat.
+    rewrite (first_idx_rel (slot_rep m) (fun c => is_null (cs_lb c)) is_free (firstn 15 t) (firstn 15 (bufs s))); [reflexivity|apply Forall2_firstn; exact H|].
+    intros cs x Hx. destruct x as [b|]; cbn [slot_rep is_free] in *; [destruct Hx as (_ & (bl & ol & ->) & _); reflexivity|destruct Hx as (_ & -> & _); reflexivity].
+  Qed.
+  (* bufs_save (slot 0 occupied: on an empty slot 0 the C code writes the view into the empty slot, the model does nothing) *)
+  Lemma rep_save m t (s : st L) r o tp l td b0 : tab_rep m t (bufs s) -> xv s = mkview r o tp l td -> short_ok td ->
+    nth_error (bufs s) 0 = Some (Some b0) -> tab_rep m (save0 t r o tp l td) (bufs (bufs_save s)).
+  Proof.
+    intros H Hv Htd H0. unfold bufs_save. cbn [bufs set_bufs]. unfold tab_rep in *.
+    destruct H as [|cs x t' l' Hx Hr]; [discriminate H0|]. cbn in H0. injection H0 as ->.
+    cbn [save0 upd0 upd_slot]. constructor; [|exact Hr]. cbn [slot_rep] in *. destruct Hx as (Hp & Hl & Hvw & Hid & Hmt).
+    cbn [set_cs_view cs_path cs_lb cs_id cs_mtime set_view b_path b_view b_id b_mtime]. repeat split; try assumption.
+    unfold view_of. cbn [cs_row cs_off cs_top cs_left cs_td]. rewrite (wrap_I16_id td Htd), Hv. reflexivity.
+  Qed.
+  (* bufs_load: the values the globals get *)
+  Lemma rep_load m t (s : st L) : tab_rep m t (bufs s) -> (0 < length t)%nat -> xv (bufs_load s) = view_of (nths t 0).
+  Proof.
+    intros H Hl. unfold bufs_load, slot0. unfold tab_rep in H. destruct H as [|cs x t' l' Hx Hr]; [cbn in Hl; lia|].
+    unfold nths. cbn [nth]. destruct x as [b|]; cbn [slot_rep] in Hx; cbn [xv set_pct set_xv].
+    - destruct Hx as (_ & _ & -> & _). reflexivity.
+    - destruct Hx as (_ & _ & ->). reflexivity.
+  Qed.
+  Lemma load_xv (s : st L) : xv (bufs_load s) = match slot0 s with Some b => b_view b | None => viewz end.
+  Proof. unfold bufs_load. destruct (slot0 s); reflexivity. Qed.
+  Lemma load_slot0 (s : st L) : slot0 (bufs_load s) = slot0 s.
+  Proof. unfold bufs_load. destruct (slot0 s) eqn:E; unfold slot0 in *; cbn [bufs set_pct set_xv]; exact E. Qed.
+  Lemma load_load_xv (s : st L) : xv (bufs_load s) = xv (bufs_load (bufs_load s)).
+  Proof. rewrite (load_xv (bufs_load s)), load_slot0. apply load_xv. Qed.
+  (* bufs_switch: the C rotation of the saved table is the model's table after bufs_switch, and the globals are loaded alike *)
+  Lemma rep_switch {Op Out} (Lo : lops L Op Out) m t (s : st L) r o tp l td b0 i : tab_rep m t (bufs s) -> xv s = mkview r o tp l td -> short_ok td ->
+    nth_error (bufs s) 0 = Some (Some b0) ->
+    let t2 := switch (save0 t r o tp l td) i in
+    tab_rep m t2 (bufs (bufs_switch Lo s i)) /\ xv (bufs_switch Lo s i) = view_of (nths t2 0).
+  Proof.
+    intros H Hv Htd H0 t2.
+    assert (Hb : bufs (bufs_switch Lo s i) = switch (upd0 (bump Lo) (bufs (bufs_save s))) i).
+    { unfold bufs_switch, bufs_load. destruct (slot0 _); reflexivity. }
+    assert (Hrep : tab_rep m t2 (bufs (bufs_switch Lo s i))).
+    { rewrite Hb. unfold t2. apply Forall2_switch. pose proof (rep_save m t s r o tp l td b0 H Hv Htd H0) as Hs.
+      unfold tab_rep in *. destruct Hs as [|cs x t' l' Hx Hr]; [constructor|]. cbn [upd0]. constructor; [|exact Hr].
+      destruct x as [b|]; cbn [upd_slot slot_rep] in *; [|exact Hx]. exact Hx. }
+    split; [exact Hrep|].
+    assert (Hl2 : (0 < length t2)%nat).
+    { pose proof (Forall2_len _ _ _ H) as E. unfold t2, switch. destruct t as [|c t']; [destruct (bufs s); [discriminate H0|discriminate E]|].
+      cbn [save0]. destruct (nth_error _ i); cbn [length]; lia. }
+    assert (Hx : xv (bufs_switch Lo s i) = xv (bufs_load (bufs_switch Lo s i))) by (unfold bufs_switch; apply load_load_xv).
+    rewrite Hx. apply (rep_load m t2 _ Hrep Hl2).
+  Qed.
+  (* bufs_shift: the table *)
+  Lemma rep_shift m t (s : st L) : tab_rep m t (bufs s) ->
+    let t2 := tl t ++ [cs_zero] in tab_rep m t2 (bufs (bufs_shift s)) /\ xv (bufs_shift s) = view_of (nths t2 0).
+  Proof.
+    intros H t2.
+    assert (Hb : bufs (bufs_shift s) = tl (bufs s) ++ [None]) by (unfold bufs_shift, bufs_load; destruct (slot0 _); reflexivity).
+    assert (Hrep : tab_rep m t2 (bufs (bufs_shift s))).
+    { rewrite Hb. unfold t2, tab_rep in *. apply Forall2_app; [destruct H; [constructor|assumption]|]. constructor; [|constructor].
+      cbn [slot_rep]. repeat split. }
+    split; [exact Hrep|].
+    assert (Hx : xv (bufs_shift s) = xv (bufs_load (bufs_shift s))) by (unfold bufs_shift; apply load_load_xv).
+    rewrite Hx. apply (rep_load m t2 _ Hrep). unfold t2. rewrite app_length. cbn [length]. lia.
+  Qed.
+  (* bufs_number: ids and counter *)
+  Lemma rep_renum m : forall t (l : list (slot L)) n, tab_rep m t l ->
+    tab_rep m (fst (c_renum t n)) (fst (renum l n)) /\ snd (c_renum t n) = snd (renum l n).
+  Proof.
+    intros t l n H. revert n. induction H as [|cs x t l Hx Hr IH]; intro n; [split; [constructor|reflexivity]|].
+    cbn [c_renum renum]. destruct x as [b|]; cbn [slot_rep] in Hx.
+    - destruct Hx as (Hp & (bl & ol & Hl) & Hv & Hid & Hmt). rewrite Hl. cbn [is_null].
+      specialize (IH (n + 1)). destruct (c_renum t (n + 1)) as [t' n1]. destruct (renum l (n + 1)) as [l' n2]. cbn [fst snd] in *.
+      destruct IH as [IH1 IH2]. split; [|exact IH2]. constructor; [|exact IH1].
+      cbn [slot_rep set_cs_id cs_path cs_lb cs_id cs_mtime set_id b_path b_view b_id b_mtime]. repeat split; try assumption. exists bl, ol. exact Hl.
+    - destruct Hx as (Hp & Hl & Hv). rewrite Hl. cbn [is_null].
+      specialize (IH n). destruct (c_renum t n) as [t' n1]. destruct (renum l n) as [l' n2]. cbn [fst snd] in *.
+      destruct IH as [IH1 IH2]. split; [|exact IH2]. constructor; [|exact IH1]. cbn [slot_rep]. repeat split; assumption.
+  Qed.
+  Lemma rep_number m t (s : st L) : tab_rep m t (bufs s) ->
+    tab_rep m (fst (c_renum t 0)) (bufs (bufs_number s)) /\ snd (c_renum t 0) = cnt (bufs_number s).
+  Proof.
+    intro H. unfold bufs_number. destruct (rep_renum m t (bufs s) 0 H) as [H1 H2]. destruct (renum (bufs s) 0) as [l' n']. exact (conj H1 H2).
+  Qed.
+  (* the representation only reads the path strings: it survives every change of memory that keeps them *)
+  Lemma rep_mem m m' t (l : list (slot L)) : (forall pb p, str_at m pb p -> str_at m' pb p) -> tab_rep m t l -> tab_rep m' t l.
+  Proof.
+    intros Hk H. unfold tab_rep in *. induction H as [|cs x t l Hx Hr IH]; constructor; [|exact IH].
+    destruct x as [b|]; cbn [slot_rep] in *; [|exact Hx]. destruct Hx as (Hp & Hrest). split; [|exact Hrest].
+    inversion Hp as [|pb p Hs Hn Hv Hq]; subst. constructor; [apply Hk; exact Hs|exact Hn].
+  Qed.
+End Rep.
+
+(* ------------------------------------------------------------------ the translated functions compute the model's functions *)
+Theorem tr_bufs_find_model {L} m t (s : st L) pb p d fuel : tab_at m t -> tab_ok t -> tab_rep m t (bufs s) ->
+  str_at m pb p -> nonul p -> str_at m G_lit__0 [] -> (16 < fuel)%nat ->
+  callf cprog fuel (S d) F_bufs_find [VPtr pb 0] m = Ok (VInt (idx_z (bufs_find s p)), m).
+Proof.
+  intros Hm Ht Hr Hs Np H0 Hf. rewrite <- (rep_find m t s p Hr).
+  apply (tr_bufs_find m t (map spath (bufs s)) pb p d fuel Hm Ht (rep_paths m t _ Hr) Hs Np H0 Hf).
+Qed.
+Theorem tr_bufs_findroom_model {L} m t (s : st L) d fuel : tab_at m t -> tab_ok t -> tab_rep m t (bufs s) -> (15 < fuel)%nat ->
+  callf cprog fuel (S d) F_bufs_findroom [] m = Ok (VInt (Z.of_nat (bufs_findroom s)), m).
+Proof.
+  intros Hm Ht Hr Hf. rewrite <- (rep_findroom m t s Hr). apply (tr_bufs_findroom m t d fuel Hm Ht (rep_lbs m t _ Hr) Hf).
+Qed.
